@@ -834,3 +834,99 @@ Section AddrTextProofs.
       + rewrite app_nil_r, strip_nospace by apply sock_no_space. now rewrite sock_round_trip.
   Qed.
 End AddrTextProofs.
+
+Lemma complete_iff : forall c s adm an,
+  Agree s adm ->
+  (add c s an <> None <->
+   forall l k lim, In (l, k) (keys_of an) -> limit c (e_size s) (strict an) l = Some lim -> count_adm adm l k < lim).
+Proof.
+  intros c s adm an A. unfold add. rewrite <- (spec_below_can_accept c s adm an A).
+  destruct (spec_below c (e_size s) adm an) eqn:E; split; intro H; try congruence.
+  - unfold spec_below in E. rewrite forallb_forall in E. intros l k lim Hin Hl. specialize (E _ Hin). cbn [fst snd] in E.
+    rewrite Hl in E. now apply N.ltb_lt.
+  - exfalso. assert (spec_below c (e_size s) adm an = true); [|congruence].
+    unfold spec_below. apply forallb_forall. intros [l k] Hin. cbn [fst snd].
+    destruct (limit c (e_size s) (strict an) l) eqn:Hl; [|reflexivity]. apply N.ltb_lt. now apply (H l k).
+Qed.
+
+Lemma cap_invariant_all : forall c ops,
+  hist_ok c enf_init [] ops ->
+  let adm := adm_run c enf_init [] ops in
+  (forall l k cap, static_cap c l = Some cap -> count_adm adm l k <= N.max 1 cap) /\
+  (forall l k lim, full_limit c (hw_run 0 ops) l = Some lim -> count_adm adm l k <= N.max 1 lim) /\
+  (sizes_nondecreasing 0 ops ->
+   forall l k lim, full_limit c (e_size (run c enf_init ops)) l = Some lim -> count_adm adm l k <= N.max 1 lim).
+Proof.
+  intros c ops H adm.
+  pose proof (agree_run c ops enf_init [] agree_init H) as A.
+  pose proof (capinv_run c ops 0 enf_init (hist_ok_bounded _ _ _ _ H) (N.le_refl 0) (capinv_init c 0)) as [I _].
+  assert (B : forall l k lim, full_limit c (hw_run 0 ops) l = Some lim -> count_adm adm l k <= N.max 1 lim).
+  { intros l k lim Hl. unfold adm. rewrite <- A. now apply I. }
+  split; [|split].
+  - intros l k cap Hc. destruct (full_limit c (hw_run 0 ops) l) as [lim|] eqn:Hl.
+    + pose proof (B l k lim Hl). pose proof (full_limit_static _ _ _ _ _ Hl Hc). lia.
+    + destruct l; cbn in Hl, Hc; congruence.
+  - exact B.
+  - intros Hs l k lim Hl. apply B. change 0 with (e_size enf_init) in Hs |- *.
+    now rewrite (hw_run_nondecreasing ops enf_init c Hs).
+Qed.
+
+Lemma pipeline_invariant : forall self ops,
+  N.of_nat (length ops) < DIV_MAX_SUBNET_TRACKING ->
+  let g := erun cfg_default self eng_init ops in
+  (forall l k, cnt (getm (g_enf g) l) k = count_adm (adm_of (g_tab g)) l k) /\
+  (forall r, cnt (g_reg g) r = reg_count (g_tab g) r) /\
+  (forall k, count_adm (adm_of (g_tab g)) V32 k <= 1 /\ count_adm (adm_of (g_tab g)) V24 k <= 3 /\
+             count_adm (adm_of (g_tab g)) V16 k <= 10 /\ count_adm (adm_of (g_tab g)) L64 k <= 1 /\
+             count_adm (adm_of (g_tab g)) L48 k <= 3 /\ count_adm (adm_of (g_tab g)) L32 k <= 10) /\
+  (forall r, reg_count (g_tab g) r <= 50).
+Proof.
+  intros self ops H g. pose proof (reachable_bounded cfg_default self ops H) as [[A R S C I RC] _]. fold g in A, R, I, RC.
+  split; [exact A|]. split; [exact R|]. split.
+  - intro k. repeat split; rewrite <- A.
+    + exact (I V32 k 1 eq_refl). + exact (I V24 k 3 eq_refl). + exact (I V16 k 10 eq_refl).
+    + exact (I L64 k 1 eq_refl). + exact (I L48 k 3 eq_refl). + exact (I L32 k 10 eq_refl).
+  - intro r. rewrite <- R. exact (RC r).
+Qed.
+
+Lemma atomic_pipeline : forall self ops id addr valid,
+  N.of_nat (length ops) < DIV_MAX_SUBNET_TRACKING ->
+  let g := erun cfg_default self eng_init ops in
+  let r := core_add cfg_default self g id addr valid in
+  snd r <> 0 ->
+  g_tab (fst r) = g_tab g /\
+  (forall l k, cnt (getm (g_enf (fst r)) l) k = cnt (getm (g_enf g) l) k) /\
+  (forall x, cnt (g_reg (fst r)) x = cnt (g_reg g) x).
+Proof.
+  intros self ops id addr valid H g r Hr. pose proof (reachable_bounded cfg_default self ops H) as [E B].
+  pose proof (einv_core_add cfg_default self g id addr valid E B) as (_ & P & _). exact (P Hr).
+Qed.
+
+Lemma evict_returns : forall self ops id,
+  N.of_nat (length ops) < DIV_MAX_SUBNET_TRACKING ->
+  let g := erun cfg_default self eng_init ops in
+  let g' := core_remove cfg_default g id in
+  g_tab g' = filter (fun e => negb (en_id e =? id)) (g_tab g) /\
+  (forall l k, cnt (getm (g_enf g') l) k = count_adm (adm_of (g_tab g')) l k) /\
+  (forall r, cnt (g_reg g') r = reg_count (g_tab g') r).
+Proof.
+  intros self ops id H g g'. pose proof (reachable_bounded cfg_default self ops H) as [E _].
+  pose proof (einv_core_remove cfg_default g id E) as ([A R _ _ _ _] & T & _). fold g' in A, R, T. auto.
+Qed.
+
+Lemma address_forms_all :
+  forall (parse_sock : list N -> option (ipaddr * N)) (parse_ip : list N -> option ipaddr)
+         (show_sock : ipaddr -> N -> list N) (show_ip : ipaddr -> list N)
+         (words : ipaddr -> N -> list N) (garbage : list N),
+  (forall ip p, parse_sock (show_sock ip p) = Some (ip, p)) ->
+  (forall ip, parse_sock (show_ip ip) = None) ->
+  (forall ip, parse_ip (show_ip ip) = Some ip) ->
+  (forall ip p ch, In ch (show_sock ip p) -> ch <> 32) ->
+  (forall ip ch, In ch (show_ip ip) -> ch <> 32) ->
+  forall f, f <> FGarbage ->
+  gate_text parse_sock parse_ip (render show_sock show_ip words garbage f) = gate_ip f /\ gate_ip f <> None.
+Proof.
+  intros ps pi ss si w g H1 H2 H3 H4 H5 f Hf. split.
+  - exact (gate_text_rendered ps pi ss si w g H1 H2 H3 H4 H5 f Hf).
+  - destruct f; cbn; congruence.
+Qed.
